@@ -7,56 +7,81 @@ import Morlock.Model.TimeCtl
 namespace Morlock.Props.C15Limits
 open Morlock Morlock.Model
 
-/-- For a clock that has not run out (`0 ≤ remaining < 2^62` ns ≈ 146 years) and any number of
-    moves to go that fits an `int32`: `0 ≤ soft ≤ hard ≤ remaining`. -/
+/-- The two divisions and the tripling, for a divisor `m ≥ 2`. -/
+theorem core (remaining m : Int) (h0 : 0 ≤ remaining) (h1 : remaining < 4611686018427387904) (hm : 2 ≤ m) :
+    let soft := wrap64 (Int.tdiv (wrap64 (Int.tdiv remaining m)) 2)
+    0 ≤ soft ∧ soft ≤ wrap64 (3 * soft) ∧ wrap64 (3 * soft) ≤ remaining := by
+  intro soft
+  have hm0 : m ≠ 0 := by omega
+  have q1n : 0 ≤ Int.tdiv remaining m := Int.tdiv_nonneg h0 (by omega)
+  have q1le : Int.tdiv remaining m ≤ remaining := Int.tdiv_le_self _ h0
+  have q1m : Int.tdiv remaining m * m ≤ remaining := by
+    have := Int.tdiv_mul_le remaining (b := m) hm0
+    simpa [h0] using this
+  have w1 : wrap64 (Int.tdiv remaining m) = Int.tdiv remaining m := by unfold wrap64; omega
+  have q2n : 0 ≤ Int.tdiv (Int.tdiv remaining m) 2 := Int.tdiv_nonneg q1n (by omega)
+  have q2m : Int.tdiv (Int.tdiv remaining m) 2 * 2 ≤ Int.tdiv remaining m := by
+    have := Int.tdiv_mul_le (Int.tdiv remaining m) (b := 2) (by omega)
+    simpa [q1n] using this
+  have two : Int.tdiv remaining m * 2 ≤ Int.tdiv remaining m * m := Int.mul_le_mul_of_nonneg_left hm q1n
+  have hs : soft = Int.tdiv (Int.tdiv remaining m) 2 := by
+    show wrap64 (Int.tdiv (wrap64 (Int.tdiv remaining m)) 2) = _
+    rw [w1]; unfold wrap64; omega
+  have w3 : wrap64 (3 * soft) = 3 * soft := by rw [hs]; unfold wrap64; omega
+  rw [w3, hs]
+  omega
+
+
+/-- **For a clock that has not run out (`0 ≤ remaining < 2^62` ns ≈ 146 years) and EVERY `int64` number of moves to go**
+    (negative, zero, `2^63 - 1`, … - the uci parser accepts any integer): `0 ≤ soft ≤ hard ≤ remaining`, and no operation
+    of `Limits` can panic (the model has no error value to return: its divisors are never zero, see `limits`). -/
 theorem hard_le_remaining (remaining moves : Int) (h0 : 0 ≤ remaining) (h1 : remaining < 4611686018427387904)
-    (m0 : 0 ≤ moves) (m1 : moves < 2147483648) :
+    (m0 : -9223372036854775808 ≤ moves) (m1 : moves < 9223372036854775808) :
     0 ≤ (limits remaining moves).1 ∧ (limits remaining moves).1 ≤ (limits remaining moves).2 ∧
     (limits remaining moves).2 ≤ remaining := by
   unfold limits
   by_cases hm : moves > 0
   · simp only [hm, if_true]
-    have w1 : wrap64 (moves + 1) = moves + 1 := by unfold wrap64; omega
-    have w2 : wrap64 (2 * (moves + 1)) = 2 * (moves + 1) := by unfold wrap64; omega
-    rw [w1, w2]
-    have hden : (2 * (moves + 1) : Int) ≠ 0 := by omega
-    simp only [hden, if_false]
-    have hq0 : 0 ≤ Int.tdiv remaining (2 * (moves + 1)) := Int.tdiv_nonneg h0 (by omega)
-    have hq : Int.tdiv remaining (2 * (moves + 1)) * (2 * (moves + 1)) ≤ remaining := by
-      have := Int.tdiv_mul_le remaining (b := 2 * (moves + 1)) hden
-      simpa [h0] using this
-    have hle : Int.tdiv remaining (2 * (moves + 1)) ≤ remaining := Int.tdiv_le_self _ h0
-    have w3 : wrap64 (Int.tdiv remaining (2 * (moves + 1))) = Int.tdiv remaining (2 * (moves + 1)) := by
-      unfold wrap64; omega
-    rw [w3]
-    -- 4q ≤ q·2(m+1) ≤ remaining since m ≥ 1
-    have h4 : 4 * Int.tdiv remaining (2 * (moves + 1)) ≤ remaining := by
-      have : 4 * Int.tdiv remaining (2 * (moves + 1)) ≤ Int.tdiv remaining (2 * (moves + 1)) * (2 * (moves + 1)) := by
-        have hm2 : (4 : Int) ≤ 2 * (moves + 1) := by omega
-        calc 4 * Int.tdiv remaining (2 * (moves + 1)) = Int.tdiv remaining (2 * (moves + 1)) * 4 := by rw [Int.mul_comm]
-          _ ≤ Int.tdiv remaining (2 * (moves + 1)) * (2 * (moves + 1)) := Int.mul_le_mul_of_nonneg_left hm2 hq0
+    by_cases hmax : moves = 9223372036854775807
+    · subst hmax
+      have hw : wrap64 (9223372036854775807 + 1) = -9223372036854775808 := by decide
+      rw [hw]
+      have hz : Int.tdiv remaining (-9223372036854775808) = 0 := by
+        rw [show (-9223372036854775808 : Int) = -(9223372036854775808 : Int) by rfl, Int.tdiv_neg,
+          Int.tdiv_eq_zero_of_lt h0 (by omega)]
+        rfl
+      rw [hz]
+      have : wrap64 (Int.tdiv (wrap64 0) 2) = 0 := by decide
+      rw [this]
+      have : wrap64 (3 * 0) = 0 := by decide
+      rw [this]
       omega
-    have w4 : wrap64 (3 * Int.tdiv remaining (2 * (moves + 1))) = 3 * Int.tdiv remaining (2 * (moves + 1)) := by
-      unfold wrap64; omega
-    rw [w4]
-    omega
+    · have w1 : wrap64 (moves + 1) = moves + 1 := by unfold wrap64; omega
+      rw [w1]
+      exact core remaining (moves + 1) h0 h1 (by omega)
   · simp only [hm, if_false]
-    have w2 : wrap64 (2 * 40) = 80 := by decide
-    rw [w2]
-    simp only [show (80 : Int) ≠ 0 by decide, if_false]
-    have hq0 : 0 ≤ Int.tdiv remaining 80 := Int.tdiv_nonneg h0 (by omega)
-    have hq : Int.tdiv remaining 80 * 80 ≤ remaining := by
-      have := Int.tdiv_mul_le remaining (b := 80) (by decide)
-      simpa [h0] using this
-    have w3 : wrap64 (Int.tdiv remaining 80) = Int.tdiv remaining 80 := by unfold wrap64; omega
-    rw [w3]
-    have w4 : wrap64 (3 * Int.tdiv remaining 80) = 3 * Int.tdiv remaining 80 := by unfold wrap64; omega
-    rw [w4]
-    omega
+    exact core remaining 40 h0 h1 (by omega)
+
+/-- the formula before the repair (`remainder / (2 * moves)`) divides by zero for `movestogo = 2^63 - 1` -/
+theorem old_divisor_zero : wrap64 (2 * wrap64 (9223372036854775807 + 1)) = 0 := by decide
+
+
+/-- The divisors of `limits`: never `0`, never `-1` (so no `int64` division can panic or overflow). -/
+theorem divisor_ok (moves : Int) (m0 : -9223372036854775808 ≤ moves) (m1 : moves < 9223372036854775808) :
+    let m : Int := if moves > 0 then wrap64 (moves + 1) else 40
+    m ≠ 0 ∧ m ≠ -1 := by
+  intro m
+  show (if moves > 0 then wrap64 (moves + 1) else 40) ≠ 0 ∧ (if moves > 0 then wrap64 (moves + 1) else 40) ≠ -1
+  by_cases hm : moves > 0
+  · simp only [hm, if_true]; unfold wrap64; omega
+  · simp only [hm, if_false]; omega
 
 /-- The one-move-to-go case a divisor without the `+ 1` would get wrong: half the clock soft, … -/
 theorem one_move_to_go : limits 1000000000 1 = (250000000, 750000000) := by decide
 
 example : (limits 60000000000 0).2 ≤ 60000000000 := by decide
+
+/-- `go wtime 1000 btime 1000 movestogo 9223372036854775807` (the input that crashed the engine before 552dec5). -/
+example : limits 1000000000 9223372036854775807 = (0, 0) := by decide
 
 end Morlock.Props.C15Limits
